@@ -173,6 +173,10 @@ func (s *scanner) Next() (*hrpc.Result, error) {
 
 	select {
 	case <-s.rpc.Context().Done():
+		if s.closed {
+			// already reported or closed by the user
+			return nil, io.EOF
+		}
 		s.Close()
 		return nil, s.rpc.Context().Err()
 	default:
